@@ -131,11 +131,11 @@ func runC01(p *Program, r *Result) {
 				ok, detail = false, "recipient loop / stanza loop not recognised as full-range loops"
 			} else if !inner[0].inLoop(site) || !outer[0].inLoop(inner[0].Header) {
 				ok, detail = false, "the append is not inside the stanza loop inside the recipient loop"
-			} else if len(inner[0].earlyExits()) != 0 {
+			} else if len(p.loopEarlyExits(inner[0])) != 0 {
 				ok, detail = false, "the stanza loop can be left early"
 			} else {
 				// the outer loop may be left early only by error returns
-				if len(outer[0].earlyExits()) != 0 {
+				if len(p.loopEarlyExits(outer[0])) != 0 {
 					ok, detail = false, "the recipient loop can be left early (break)"
 				}
 				for _, ret := range returnsOf(enc) {
